@@ -49,13 +49,46 @@ func getClass(err error) string {
 	return "other"
 }
 
+// ctxLog collects, for every link a traversal dereferences, the LinkContext handed to the prototype chooser:
+// <LinkPath>~<dump of LinkNode>~<kind of ParentNode>.  The chooser's ANSWER depends on the context too: it refuses
+// unless LinkNode is the very link node being dereferenced (as a chooser for typed link nodes would).
+var ctxLog []string
+
+func kindLetter(n datamodel.Node) string {
+	if n == nil {
+		return "-"
+	}
+	switch n.Kind() {
+	case datamodel.Kind_Map:
+		return "m"
+	case datamodel.Kind_List:
+		return "a"
+	case datamodel.Kind_Link:
+		return "l"
+	}
+	return "s"
+}
+
+func recordingChooser(lnk datamodel.Link, lc linking.LinkContext) (datamodel.NodePrototype, error) {
+	d := "-"
+	if lc.LinkNode != nil {
+		d = strings.ReplaceAll(lib.Dump(lc.LinkNode), " ", "_")
+	}
+	ctxLog = append(ctxLog, lib.SegsText(lib.PathSegs(lc.LinkPath))+"~"+d+"~"+kindLetter(lc.ParentNode))
+	if lc.LinkNode == nil || lc.LinkNode.Kind() != datamodel.Kind_Link {
+		return nil, fmt.Errorf("chooser: LinkNode is not a link node")
+	}
+	if l2, err := lc.LinkNode.AsLink(); err != nil || l2.Binary() != lnk.Binary() {
+		return nil, fmt.Errorf("chooser: LinkNode is another link")
+	}
+	return basicnode.Prototype.Any, nil
+}
+
 func progFor(env *lib.TravEnv) traversal.Progress {
 	return traversal.Progress{Cfg: &traversal.Config{
-		Ctx:        context.Background(),
-		LinkSystem: env.LSys,
-		LinkTargetNodePrototypeChooser: func(datamodel.Link, linking.LinkContext) (datamodel.NodePrototype, error) {
-			return basicnode.Prototype.Any, nil
-		},
+		Ctx:                            context.Background(),
+		LinkSystem:                     env.LSys,
+		LinkTargetNodePrototypeChooser: recordingChooser,
 	}}
 }
 
@@ -354,13 +387,22 @@ func reparse(env *lib.TravEnv, p datamodel.Path, get string) string {
 }
 
 func resolve(env *lib.TravEnv, p datamodel.Path) (get, focus, step string) {
+	get, focus, step, _ = resolveCtx(env, p)
+	return
+}
+
+// resolveCtx also returns the link contexts Get handed to the chooser (Focus must hand out the same ones).
+func resolveCtx(env *lib.TravEnv, p datamodel.Path) (get, focus, step, ctx string) {
 	var gn datamodel.Node
+	ctxLog = nil
 	gerr := lib.Safely(func() error {
 		var e error
 		gn, e = progFor(env).Get(env.RootNode, p)
 		return e
 	})
 	get = resText(gn, gerr)
+	ctx = strings.Join(ctxLog, "+")
+	ctxLog = nil
 	var fn datamodel.Node
 	var fpath datamodel.Path
 	ferr := lib.Safely(func() error {
@@ -372,6 +414,9 @@ func resolve(env *lib.TravEnv, p datamodel.Path) (get, focus, step string) {
 	focus = resText(fn, ferr)
 	if ferr == nil && lib.SegsText(lib.PathSegs(fpath)) != lib.SegsText(lib.PathSegs(p)) {
 		focus += " path=" + lib.SegsText(lib.PathSegs(fpath))
+	}
+	if fctx := strings.Join(ctxLog, "+"); fctx != ctx {
+		focus += " ctx=" + fctx
 	}
 	if focus == get {
 		focus = "="
@@ -395,6 +440,7 @@ func runVisits(out *lib.Out, id string, tc *lib.TravCase) (paths [][]string, ok 
 	// the walk, keeping the reported Path values themselves
 	var visits []string
 	var reported []datamodel.Path
+	ctxLog = nil
 	werr := lib.Safely(func() error {
 		return progFor(env).WalkAdv(env.RootNode, env.Sel, func(p traversal.Progress, n datamodel.Node, r traversal.VisitReason) error {
 			reported = append(reported, p.Path)
@@ -402,6 +448,7 @@ func runVisits(out *lib.Out, id string, tc *lib.TravCase) (paths [][]string, ok 
 			return nil
 		})
 	})
+	wctx := strings.Join(ctxLog, "+")
 	if len(visits) > 120 {
 		return nil, false
 	}
@@ -410,7 +457,8 @@ func runVisits(out *lib.Out, id string, tc *lib.TravCase) (paths [][]string, ok 
 		visits[i] += ";" + g + ";" + f + ";" + s + ";" + reparse(env, p, g)
 		paths = append(paths, lib.PathSegs(p))
 	}
-	out.Case(id, "c14v", tc.Sel.Text(), tc.Root.Text(), tc.BlocksText(), strings.Join(visits, ",")+"|"+lib.WalkErrClass(werr))
+	out.Case(id, "c14v", tc.Sel.Text(), tc.Root.Text(), tc.BlocksText(), strings.Join(visits, ",")+"|"+lib.WalkErrClass(werr)+"|ctx:"+wctx)
+	runTransforming(out, id+".t", tc, env)
 	return paths, true
 }
 
@@ -419,8 +467,157 @@ func runPath(out *lib.Out, id string, tc *lib.TravCase, segs []string) {
 	if err != nil {
 		panic(err)
 	}
-	g, f, s := resolve(env, lib.SegsPath(segs))
-	out.Case(id, "c14p", tc.Root.Text(), tc.BlocksText(), lib.SegsText(segs), g+";"+f+";"+s+";"+reparse(env, lib.SegsPath(segs), g))
+	g, f, s, ctx := resolveCtx(env, lib.SegsPath(segs))
+	out.Case(id, "c14p", tc.Root.Text(), tc.BlocksText(), lib.SegsText(segs), g+";"+f+";"+s+";"+reparse(env, lib.SegsPath(segs), g)+";"+ctx)
+}
+
+// c14t: WalkTransforming with a TransformFn that changes nothing; every (path, node) it is handed is resolved with Get.
+// Not modelled (the transforming walk belongs to C16): the record is judged by the oracle only.
+func runTransforming(out *lib.Out, id string, tc *lib.TravCase, env *lib.TravEnv) {
+	var paths []datamodel.Path
+	var dumps []string
+	lib.Safely(func() error {
+		_, err := progFor(env).WalkTransforming(env.RootNode, env.Sel, func(p traversal.Progress, n datamodel.Node) (datamodel.Node, error) {
+			paths = append(paths, p.Path)
+			dumps = append(dumps, lib.Dump(n))
+			return n, nil
+		})
+		return err
+	})
+	if len(paths) == 0 || len(paths) > 60 {
+		return
+	}
+	var rep []string
+	for i, p := range paths {
+		var gn datamodel.Node
+		gerr := lib.Safely(func() error {
+			var e error
+			gn, e = progFor(env).Get(env.RootNode, p)
+			return e
+		})
+		rep = append(rep, lib.SegsText(lib.PathSegs(p))+";"+dumps[i]+";"+resText(gn, gerr))
+	}
+	out.Case(id, "c14t", tc.Sel.Text(), tc.Root.Text(), tc.BlocksText(), strings.Join(rep, ","))
+}
+
+// c14l: traversal.WalkLocal over the root (links are not followed); the path of every visit is resolved segment by
+// segment (LookupBySegment, never through a string).
+func runLocal(out *lib.Out, id string, root *lib.Val) {
+	rn, err := lib.BuildRoot(root)
+	if err != nil {
+		return
+	}
+	var rep []string
+	werr := lib.Safely(func() error {
+		return traversal.WalkLocal(rn, func(p traversal.Progress, n datamodel.Node) error {
+			d := lib.Dump(n)
+			cur := rn
+			res := "="
+			for _, seg := range p.Path.Segments() {
+				next, err := cur.LookupBySegment(seg)
+				if err != nil {
+					res = "unresolvable"
+					break
+				}
+				cur = next
+			}
+			if res == "=" && lib.Dump(cur) != d {
+				res = "other:" + lib.Digest(lib.Dump(cur))
+			}
+			rep = append(rep, lib.SegsText(lib.PathSegs(p.Path))+";"+lib.Digest(d)+";"+res)
+			return nil
+		})
+	})
+	if len(rep) > 300 {
+		return
+	}
+	out.Case(id, "c14l", root.Text(), strings.Join(rep, ",")+"|"+nestedClass(werr))
+}
+
+// c14a: the Path API the walks build their paths with, called directly.
+//
+//	ops: as:<hex> AppendSegmentString  ap:<hex> AppendSegment(PathSegmentOfString)  ai:<int> AppendSegmentInt
+//	     j:<segs> Join  t:<i> Truncate(i mod (Len+1))  pop Pop  par Parent  sh Shift (continues with the rest)  last Last  len Len
+func runPathAPI(out *lib.Out, id string, start []string, ops []string) {
+	p := lib.SegsPath(start)
+	var rep []string
+	for _, op := range ops {
+		var r string
+		err := lib.Safely(func() error {
+			switch {
+			case strings.HasPrefix(op, "as:"):
+				p = p.AppendSegmentString(lib.UnHex(op[3:]))
+			case strings.HasPrefix(op, "ap:"):
+				p = p.AppendSegment(datamodel.PathSegmentOfString(lib.UnHex(op[3:])))
+			case strings.HasPrefix(op, "ai:"):
+				var i int64
+				fmt.Sscanf(op[3:], "%d", &i)
+				p = p.AppendSegmentInt(i)
+			case strings.HasPrefix(op, "j:"):
+				p = p.Join(lib.SegsPath(lib.ParseSegs(op[2:])))
+			case strings.HasPrefix(op, "t:"):
+				var i int
+				fmt.Sscanf(op[2:], "%d", &i)
+				p = p.Truncate(i % (p.Len() + 1)) // within 0..Len (beyond Len the result depends on the slice capacity)
+			case op == "pop":
+				p = p.Pop()
+			case op == "par":
+				p = p.Parent()
+			case op == "sh":
+				var h datamodel.PathSegment
+				h, p = p.Shift()
+				r = "h" + lib.Hex(h.String()) + "/"
+			case op == "last":
+				r = "h" + lib.Hex(p.Last().String()) + "/"
+			case op == "len":
+				r = fmt.Sprintf("n%d/", p.Len())
+			}
+			return nil
+		})
+		if err != nil {
+			rep = append(rep, "panic")
+			break
+		}
+		rep = append(rep, r+lib.SegsText(lib.PathSegs(p))+"="+lib.Hex(p.String()))
+	}
+	out.Case(id, "c14a", lib.SegsText(start), strings.Join(ops, ","), strings.Join(rep, ","))
+}
+
+func genPathOps(r *lib.Rng) ([]string, []string) {
+	seg := func() string { return oddSegs[r.Intn(len(oddSegs))] }
+	var start []string
+	for i := r.Intn(4); i > 0; i-- {
+		start = append(start, seg())
+	}
+	if start == nil {
+		start = []string{}
+	}
+	var ops []string
+	for i := 2 + r.Intn(6); i > 0; i-- {
+		switch r.Intn(11) {
+		case 0, 1:
+			ops = append(ops, "as:"+lib.Hex(seg()))
+		case 2:
+			ops = append(ops, "ap:"+lib.Hex(seg()))
+		case 3:
+			ops = append(ops, fmt.Sprintf("ai:%d", []int64{0, 1, 7, -1, 1 << 40, -9223372036854775808, 9223372036854775807}[r.Intn(7)]))
+		case 4:
+			ops = append(ops, "j:"+lib.SegsText([]string{seg(), seg()}))
+		case 5:
+			ops = append(ops, fmt.Sprintf("t:%d", r.Intn(4)))
+		case 6:
+			ops = append(ops, "pop")
+		case 7:
+			ops = append(ops, "par")
+		case 8:
+			ops = append(ops, "sh")
+		case 9:
+			ops = append(ops, "last")
+		default:
+			ops = append(ops, "len")
+		}
+	}
+	return start, ops
 }
 
 func runRoundTrip(out *lib.Out, id string, segs []string) {
@@ -513,6 +710,11 @@ func corpus(out *lib.Out) {
 	for i, p := range [][]string{{"1"}, {"01"}, {"+1"}, {"-1"}, {"x"}, {""}, {"3"}, {"1", "0"}, {"9223372036854775808"}} {
 		runPath(out, fmt.Sprintf("k11.p%d", i), tc2, p)
 	}
+	slashy := lib.Map(lib.Entry{K: "", V: lib.Int(1)}, lib.Entry{K: "/", V: lib.Int(2)}, lib.Entry{K: "a/b", V: lib.Map(lib.Entry{K: "a//b", V: lib.Int(3)})},
+		lib.Entry{K: "a", V: lib.Map(lib.Entry{K: "b", V: lib.Int(4)}, lib.Entry{K: "", V: lib.List(lib.Int(5))})}, lib.Entry{K: "/x", V: lib.Int(6)}, lib.Entry{K: "x/", V: lib.List(lib.Map(lib.Entry{K: "", V: lib.Int(7)}))})
+	runLocal(out, "k13.l", slashy)
+	runPathAPI(out, "k13.a0", []string{"a"}, []string{"as:", "as:" + lib.Hex("a/b"), "as:" + lib.Hex("/"), "ai:-1", "ai:5", "len", "last", "t:2", "sh", "pop", "par", "t:9", "t:0"})
+	runPathAPI(out, "k13.a1", []string{}, []string{"pop", "par", "sh", "last", "j:" + lib.SegsText([]string{"", "x/"}), "t:1", "as:" + lib.Hex("~1")})
 	for i, segs := range [][]string{{}, {"a"}, {"a", "b"}, {""}, {"a", ""}, {"a/b"}, {"/"}, {"", ""}, {"é", "0"}, {"a", "", "b"},
 		{"PROGRA~1"}, {"notes.txt~0", "~1"}, {"~"}, {"a~1b", "~01"}, {"caf\xe9"}, {"\xff", "\xe2\x82"}} {
 		runRoundTrip(out, fmt.Sprintf("k12.r%d", i), segs)
@@ -549,6 +751,16 @@ func main() {
 					panic(err)
 				}
 				runPath(out, f[0], tc, lib.ParseSegs(f[4]))
+			case len(f) >= 4 && f[1] == "c14l":
+				runLocal(out, f[0], mustVal(f[2]))
+			case len(f) >= 5 && f[1] == "c14a":
+				var ops []string
+				if f[3] != "" {
+					ops = strings.Split(f[3], ",")
+				}
+				runPathAPI(out, f[0], lib.ParseSegs(f[2]), ops)
+			case len(f) >= 6 && f[1] == "c14t":
+				// re-run through its c14v record
 			case len(f) >= 4 && f[1] == "c14r":
 				runRoundTrip(out, f[0], lib.ParseSegs(f[2]))
 			}
@@ -591,6 +803,11 @@ func main() {
 		keys := tc.AllKeys()
 		for j, sc := range nestedScripts(rng, paths, keys) {
 			runNested(out, fmt.Sprintf("p%d.n%d", i, j), tc, sc)
+		}
+		runLocal(out, fmt.Sprintf("p%d.l", i), tc.Root)
+		for j := 0; j < 2; j++ {
+			st, ops := genPathOps(rng)
+			runPathAPI(out, fmt.Sprintf("p%d.a%d", i, j), st, ops)
 		}
 		np := 6
 		for j := 0; j < np; j++ {
